@@ -47,6 +47,7 @@ type worker struct {
 	rb     *reqBuilder
 	qs     []string
 	file   string
+	f4     *f4App // non-nil while a family-4 shard runs (the app is then a shape app, not cfgs[cfgIdx])
 
 	caseNo   int64 // number of the case being executed (worker-local, deterministic)
 	caseAtom atomic.Int64
@@ -68,9 +69,10 @@ type worker struct {
 }
 
 func (w *worker) useCfg(i int) {
-	if w.app != nil && w.cfgIdx == i {
+	if w.app != nil && w.cfgIdx == i && w.f4 == nil {
 		return
 	}
+	w.f4 = nil
 	w.cfgIdx = i
 	w.st = &appState{qs: w.qs, file: w.file}
 	w.app = buildApp(&cfgs[i], w.st)
@@ -118,6 +120,12 @@ func (w *worker) firstTime(req []byte) bool {
 }
 
 func (w *worker) ctxKind() string {
+	if w.f4 != nil {
+		if w.f4.cfg.CustomCtx {
+			return "custom"
+		}
+		return "default"
+	}
 	if w.cfg().Custom {
 		return "custom"
 	}
@@ -171,9 +179,17 @@ func (w *worker) exec(req []byte) *result {
 // depend on what earlier cases left in pooled contexts.
 func (w *worker) remeasure(req []byte) uint64 {
 	st := &appState{qs: w.qs, file: w.file}
-	app := buildApp(w.cfg(), st)
-	for _, q := range warmRequests {
-		serveRecover(app, fx.NewWireConn([]byte(q), nil))
+	var app *fiber.App
+	if w.f4 != nil {
+		app = buildShapeApp(w.f4, st)
+		for _, q := range warmRequests4 {
+			serveRecover(app, fx.NewWireConn([]byte(q), nil))
+		}
+	} else {
+		app = buildApp(w.cfg(), st)
+		for _, q := range warmRequests {
+			serveRecover(app, fx.NewWireConn([]byte(q), nil))
+		}
 	}
 	conn := fx.NewWireConn(req, nil)
 	var a, b runtime.MemStats
@@ -254,6 +270,7 @@ type judgeOpts struct {
 	allocTrigger string // names the input class in an allocation signature
 	minTrigger   func() string // optional: narrows the class (called only when the budget is exceeded)
 	parseSig     func(*ParseErr) string // family 3: classifies a response-syntax error per helper
+	inputCls     string                 // family 4: names the input class (kind of application shape) in panic signatures; the target class is in the case
 }
 
 // judgeCommon applies oracles (i) panic, (iii) allocation, (iv) strict parse + response count,
@@ -263,12 +280,20 @@ func (w *worker) judgeCommon(req []byte, res *result, desc func() map[string]any
 	kind := w.ctxKind()
 	// (i) panics
 	if res.pan != nil {
-		l.Violate(fmt.Sprintf("panic escapes ServeConn at=%s msg=%q ctx=%s", res.pan.At, res.pan.Msg, kind),
+		sig := fmt.Sprintf("panic escapes ServeConn at=%s msg=%q ctx=%s", res.pan.At, res.pan.Msg, kind)
+		if o.inputCls != "" {
+			sig += " input=" + o.inputCls
+		}
+		l.Violate(sig,
 			"a panic escaped the request handler: fasthttp does not recover, the server process would die",
 			desc(), map[string]any{"panic": res.pan, "written": clipOut(res.out)}, "no panic")
 	}
 	for _, p := range w.st.panics {
-		l.Violate(fmt.Sprintf("panic in accessor probe=%s at=%s msg=%q ctx=%s", p.Probe, p.At, p.Msg, kind),
+		sig := fmt.Sprintf("panic in accessor probe=%s at=%s msg=%q ctx=%s", p.Probe, p.At, p.Msg, kind)
+		if o.inputCls != "" {
+			sig += " input=" + o.inputCls
+		}
+		l.Violate(sig,
 			"a context accessor panicked inside the handler (recovered by the harness probe; unrecovered it kills the server)",
 			desc(), p, "no panic")
 	}
@@ -639,5 +664,96 @@ func (w *worker) runF3(hi int, qi int) {
 		l.Violate(fmt.Sprintf("f3 helper=%s body-altered", sp.Name),
 			"the body is not the body the handler sent (the helper argument started the body early or cut it)", desc(), clipOut(res.out), fmt.Sprintf("%q", want))
 		return
+	}
+}
+
+// ---------------------------------------------------------------------------
+// family 4: application shapes x degenerate targets
+
+// useShape builds the application of one (configuration, shape set) pair.
+func (w *worker) useShape(a *f4App) {
+	w.f4 = a
+	w.cfgIdx = -1
+	w.st = &appState{qs: w.qs, file: w.file}
+	w.app = buildShapeApp(a, w.st)
+	for _, q := range warmRequests4 {
+		serveRecover(w.app, fx.NewWireConn([]byte(q), nil))
+	}
+}
+
+// runF4Shard: every target x every method on one shape application.
+func (w *worker) runF4Shard(a *f4App, quick bool) {
+	w.useShape(a)
+	// anti-vacuity: the plain witness target runs a handler of each shape (all-defaults configuration)
+	if !a.cfg.Strict && !a.cfg.CaseS && !a.cfg.Unescape && !a.cfg.CustomCtx && !a.cfg.CustomM && len(a.shape) == 1 && w.only < 0 {
+		if wt := shapes[a.shape[0]].Witness; wt != "" {
+			w.st.reset()
+			conn := fx.NewWireConn(f4Request("GET", wt), nil)
+			pan := serveRecover(w.app, conn)
+			if pan != nil {
+				w.useShape(a) // judged below: the witness is one of the targets
+			} else if w.st.mwRan+w.st.epRan == 0 {
+				core.Fatal("family 4: shape %s does not run any of its handlers for its witness target %q: %s", shapes[a.shape[0]].Name, wt, clipOut(conn.Output()))
+			}
+		}
+	}
+	for ti := range targets4 {
+		for _, m := range methods4(quick) {
+			w.runF4(a, m, &targets4[ti])
+		}
+	}
+	w.f4 = nil
+	w.app = nil
+}
+
+func (w *worker) runF4(a *f4App, method string, t *target4) {
+	desc := func() map[string]any { return f4Desc(a, method, t) }
+	if !w.begin(desc) {
+		return
+	}
+	l := w.l
+	req := f4Request(method, t.T)
+	res := w.exec(req)
+	l.Add("evaluations", 1)
+	l.Add("f4_cases", 1)
+	if w.firstTime(req) && !t.Plain {
+		l.Add("nontrivial", 1)
+	}
+	// CONNECT: the target is an authority, a tunnel request; responses to it are not judged for count
+	one := t.Valid && method != "CONNECT"
+	first := w.judgeCommon(req, res, desc, judgeOpts{fam: "f4", exactlyOne: one, allocTrigger: "f4:shape-kind=" + a.shapeKind() + " target=" + t.Class,
+		inputCls: "f4 shape-kind=" + a.shapeKind()})
+	st := 0
+	if first != nil {
+		st = first.Status
+	}
+	l.Outcome(fmt.Sprintf("f4 st=%d eh=%d mw=%d ep=%d n=%d", st, w.st.ehCode, min(w.st.mwRan, 3), min(w.st.epRan, 2), len(res.resps)))
+	if w.st.mwRan+w.st.epRan > 0 && !t.Plain {
+		l.Add("f4_degenerate_target_reached_handler", 1)
+	}
+	if w.caseNo%50021 == 0 {
+		w.sample("f4", map[string]any{"case": desc(), "status": st, "middleware_ran": w.st.mwRan, "endpoint_ran": w.st.epRan, "alloc_bytes": res.alloc})
+	}
+	if res.pan != nil {
+		w.useShape(a) // rebuild after an escaped panic
+		return
+	}
+	if first == nil {
+		return
+	}
+	// (vi) the method rule, on well-formed targets only
+	if t.Valid {
+		inSet := a.cfg.hasMethod(method)
+		if !inSet && st != 501 {
+			l.Violate(fmt.Sprintf("unknown-method-not-501 method=%s status=%d ctx=%s", method, st, w.ctxKind()),
+				"a well-formed request with a method outside the configured set was not answered 501", desc(), clipOut(res.out), 501)
+		}
+		if inSet && st == 501 {
+			l.Violate(fmt.Sprintf("configured-method-got-501 method=%s", method),
+				"a method of the configured set was answered 501", desc(), clipOut(res.out), "not 501")
+		}
+		l.Add("method_rule_judged", 1)
+	} else {
+		l.Add("unspecified_skipped", 1)
 	}
 }
